@@ -21,6 +21,7 @@ import (
 	"strings"
 	"sync"
 	"time"
+	"unicode/utf8"
 
 	"github.com/fsnotify/fsnotify"
 	"github.com/gopacket/gopacket"
@@ -1012,7 +1013,19 @@ func parseTagName(fullName string) (typ, name string, isMark bool) {
 	return
 }
 
+// the state file is JSON: text that is no valid UTF-8 comes back altered after a restart
+// (two tag names that differ only in such bytes even make the state file unreadable).
+func checkStorable(what, text string) error {
+	if !utf8.ValidString(text) {
+		return fmt.Errorf("invalid %s (not valid UTF-8)", what)
+	}
+	return nil
+}
+
 func (mgr *Manager) AddTag(name, color, queryString string) error {
+	if err := errors.Join(checkStorable("tag name", name), checkStorable("color", color), checkStorable("query", queryString)); err != nil {
+		return err
+	}
 	typ, sub, isMark := parseTagName(name)
 	if typ == "" {
 		return errors.New("invalid tag name (need a 'tag/', 'service/', 'mark/' or 'generated/' prefix)")
@@ -1177,6 +1190,14 @@ func UpdateTagOperationSetConverter(converterNames []string) UpdateTagOperation 
 func (mgr *Manager) UpdateTag(name string, operation UpdateTagOperation) error {
 	info := updateTagOperationInfo{convertersUpdated: false}
 	operation(&info)
+	if err := errors.Join(checkStorable("tag name", info.name), checkStorable("color", info.color)); err != nil {
+		return err
+	}
+	if info.query != nil {
+		if err := checkStorable("query", *info.query); err != nil {
+			return err
+		}
+	}
 	maxUsedStreamID := uint64(0)
 	updateMarks := len(info.markTagAddStreams) != 0 || len(info.markTagDelStreams) != 0
 	if updateMarks {
@@ -2126,6 +2147,9 @@ func (mgr *Manager) ListPcapProcessorWebhooks() []string {
 }
 
 func (mgr *Manager) AddPcapProcessorWebhook(url string) error {
+	if err := checkStorable("url", url); err != nil {
+		return err
+	}
 	c := make(chan error)
 	mgr.jobs <- func() {
 		for _, u := range mgr.pcapProcessorWebhookUrls {
@@ -2407,6 +2431,9 @@ func (mgr *Manager) ListPcapOverIPEndpoints() []PcapOverIPEndpointInfo {
 }
 
 func (mgr *Manager) AddPcapOverIPEndpoint(address string) error {
+	if err := checkStorable("address", address); err != nil {
+		return err
+	}
 	if _, _, err := net.SplitHostPort(address); err != nil {
 		return err
 	}
